@@ -40,6 +40,10 @@ type pmCase struct {
 	Early   int        `json:"early,omitempty"` // C02: number of early allocations
 	Tables  int        `json:"tables,omitempty"` // frames the map seam takes for page tables on its first call
 	Ops     []pmOp     `json:"ops,omitempty"`
+	// EntrySize is the entry_size field of the memory-map tag (0 = 24). Multiboot2 lets a boot
+	// loader use larger entries ("so that in future new fields may be added to it"); the extra
+	// bytes are filled with a pattern.
+	EntrySize uint32 `json:"entrysize,omitempty"`
 }
 
 // whole returns the first and last whole frame of a region.
@@ -75,8 +79,12 @@ func (c pmCase) availFrames() []uint64 {
 
 // pmBuildInfo encodes the memory map as a multiboot2 information block
 // (memory-map tag followed by the end tag) in 8-byte aligned memory.
-func pmBuildInfo(regs []pmRegion) []byte {
-	n := 8 + 16 + 24*len(regs) + 8
+func pmBuildInfo(regs []pmRegion, entrySize uint32) []byte {
+	if entrySize < 24 {
+		entrySize = 24
+	}
+	es := int(entrySize)
+	n := 8 + 16 + es*len(regs) + 8
 	backing := make([]uint64, (n+7)/8+1)
 	b := (*[1 << 30]byte)(unsafe.Pointer(&backing[0]))[:0:len(backing)*8]
 	put32 := func(v uint32) { var t [4]byte; binary.LittleEndian.PutUint32(t[:], v); b = append(b, t[:]...) }
@@ -84,19 +92,27 @@ func pmBuildInfo(regs []pmRegion) []byte {
 	put32(0)
 	put32(0)
 	put32(6)
-	put32(uint32(16 + 24*len(regs)))
-	put32(24)
+	put32(uint32(16 + es*len(regs)))
+	put32(entrySize)
 	put32(0)
-	for _, r := range regs {
+	for i, r := range regs {
 		put64(r.Addr)
 		put64(r.Len)
 		put32(r.Typ)
 		put32(0)
+		for k := 24; k < es; k++ {
+			b = append(b, byte(0x11*(i+1)+k))
+		}
 	}
 	put32(0)
 	put32(8)
 	binary.LittleEndian.PutUint32(b[0:], uint32(len(b)))
 	return b
+}
+
+// pmGenEntrySize draws the entry size of the memory-map tag.
+func pmGenEntrySize(t *rapid.T) uint32 {
+	return rapid.SampledFrom([]uint32{0, 0, 0, 0, 0, 32, 40, 48}).Draw(t, "entrysize")
 }
 
 // pmEnv is the harness side of one initialisation.
@@ -158,7 +174,7 @@ const pmMaxReserve = 64 << 20
 // allocators use, so that a case is a pure function of its data.
 func pmSetup(c pmCase) *pmEnv {
 	env := &pmEnv{}
-	env.info = pmBuildInfo(c.Regions)
+	env.info = pmBuildInfo(c.Regions, c.EntrySize)
 	multiboot.SetInfoPtr(uintptr(unsafe.Pointer(&env.info[0])))
 	bootMemAllocator = BootMemAllocator{}
 	bitmapAllocator = BitmapAllocator{}
